@@ -79,3 +79,15 @@ Definition sends_under_lock : list (string * string * N) :=
 
 Theorem C13_gen_sends_under_lock : sends_under_lock = [("ConnPool", "subscribe", 1%N)].
 Proof. vm_compute. reflexivity. Qed.
+
+(** every method that takes a lock releases it on every path: the Lock/RLock statement is
+    followed at once by the matching deferred unlock (no early return in between); the one
+    exception is connection.SetMasterHead, which unlocks explicitly before its two exits so
+    that it can publish outside the lock (Proofs/PoolHistory.v) *)
+Definition locks_without_adjacent_defer : list (string * string) :=
+  map (fun f => (lf_type f, lf_name f))
+      (filter (fun f => negb (N.eqb (lf_kind f) 0) && negb (lf_defer_next f)) pool_lock_facts).
+
+Theorem C13_gen_lock_released_on_every_path :
+  locks_without_adjacent_defer = [("connection", "SetMasterHead")].
+Proof. vm_compute. reflexivity. Qed.
